@@ -86,3 +86,35 @@ Example pcm_nonvacuous :
     pc_orders o = [("A"%string, 7500); ("B"%string, -40); ("C"%string, 2500); ("Z"%string, 7)].
 Proof. eexists. split; [vm_compute; reflexivity|]. split; reflexivity. Qed.
 Print Assumptions pcm_nonvacuous.
+
+(** the construction model with ANY optimiser (fixed-weight pass-through or equal weight): the optimiser is given the alpha
+    weights only, so (i) the recorded allocation covers held + universe + alpha keys, (ii) an asset the alpha model names gets
+    the optimiser's figure - with the equal-weight optimiser, the scale divided by the number of assets THE ALPHA MODEL NAMES,
+    not by the size of the universe or of the holdings -, (iii) every other held or universe asset is targeted at exactly 0 *)
+Theorem the_optimiser_sees_only_the_alpha_weights : forall sizer o held univ alpha_w out a,
+  pcm_call_opt sizer o held univ alpha_w = Ok out ->
+  (In a (map fst (pc_alloc out)) <-> (In a (map fst held) \/ In a univ \/ In a (map fst alpha_w))) /\
+  (In a (map fst alpha_w) ->
+     match o with
+     | OptFixed => w_find a (pc_alloc out) = w_find a alpha_w
+     | OptEqual s => w_find a (pc_alloc out) = Some (s * (1 / inject_Z (Z.of_nat (length alpha_w))))%Q
+     end) /\
+  (~ In a (map fst alpha_w) -> (In a (map fst held) \/ In a univ) -> w_find a (pc_alloc out) = Some 0%Q).
+Proof. exact alloc_with_optimiser. Qed.
+Print Assumptions the_optimiser_sees_only_the_alpha_weights.
+
+Theorem fixed_optimiser_is_the_plain_construction : forall sizer held univ alpha_w,
+  pcm_call_opt sizer OptFixed held univ alpha_w = pcm_call sizer held univ alpha_w.
+Proof. exact pcm_call_opt_fixed. Qed.
+Print Assumptions fixed_optimiser_is_the_plain_construction.
+
+(** Non-vacuity: the alpha model names A and C (signals 1/4 and 3/4); B is in the universe, Z is held.  Equal weight, scale 1:
+    A and C get 1/2 each (not 1/4), B and Z are sold out. *)
+Example pcm_equal_nonvacuous :
+  exists o, pcm_call_opt (lo_size (100000 # 1) 0 ZeroFee pr9) (OptEqual 1)
+                     [("B"%string, 40); ("Z"%string, -7)] ["A"%string; "B"%string]
+                     [("C"%string, 1 # 4)%Q; ("A"%string, 3 # 4)%Q] = Ok o /\
+    map fst (pc_alloc o) = ["A"; "B"; "Z"; "C"]%string /\
+    pc_orders o = [("A"%string, 5000); ("B"%string, -40); ("C"%string, 5000); ("Z"%string, 7)].
+Proof. eexists. split; [vm_compute; reflexivity|]. split; reflexivity. Qed.
+Print Assumptions pcm_equal_nonvacuous.
